@@ -1443,9 +1443,21 @@ class SpaceManager(SharedSpaceOperations):
 
         old_name = cells.name
 
+        renamed = []
         for space in self._get_subs(cells.parent, skip_self=False):
             space.clear_subs_rootitems()
-            space.cells[old_name].on_rename(name)
+            c = space.cells[old_name]
+            # Cells overridden in or derived from other bases keep the name
+            if c is cells or (c.is_derived() and self.get_deriv_bases(
+                    c, defined_only=True)[0] is cells):
+                renamed.append(c)
+
+        for c in renamed:
+            c.on_rename(name)
+
+        # Derive the cells of the old name in other bases, and the renamed
+        # cells in the sub spaces having kept the cells of the old name
+        self.update_subs(cells.parent)
 
     def sort_cells(self, space):
         """Sort cells in a space
